@@ -8,6 +8,7 @@
 #pragma once
 #include "sx.hpp"
 #include <crab/cfg/cfg.hpp>
+#include <functional>
 #include <map>
 #include <set>
 #include <vector>
@@ -185,7 +186,12 @@ public:
     if (it != env.end()) it->second = t;
     else env.insert({pert_var, t});
   }
+  std::function<void(machine &, callsite_t &)> call_handler; // inter-procedural harnesses execute the callee
   void visit(callsite_t &s) override { // intra-procedural semantics: outputs are arbitrary
+    if (call_handler) {
+      call_handler(*this, s);
+      return;
+    }
     for (auto const &v : s.get_lhs()) set(v, fresh_for(v));
   }
   void visit(intrinsic_t &s) override {
